@@ -108,6 +108,62 @@ func VH16d_receivers() {
 		return
 	}
 	deliveredJunk := g.Done() && err == nil
+	// the other direction: a message that IS well-formed for the pattern (default TTL 8) - including one whose
+	// payload is empty - must be delivered, with exactly the bytes that follow the pattern's header
+	{
+		must := false
+		off := 0
+		switch proto {
+		case "pair", "xpair", "bus", "xbus", "sub", "xsub", "pull", "xpull":
+			must = true
+		case "pair1", "xpair1":
+			off = 4
+			if n >= 4 {
+				w := int(junk[0])<<24 | int(junk[1])<<16 | int(junk[2])<<8 | int(junk[3])
+				must = verif.And(w <= 8, w < 255)
+			}
+		case "star", "xstar":
+			off = 4
+			if n >= 4 {
+				must = verif.And(verif.And(junk[0] == 0, junk[1] == 0), verif.And(junk[2] == 0, junk[3] < 8))
+			}
+		case "rep", "xrep", "respondent", "xrespondent":
+			// routing words until the first one with the top bit (the id word); the message crossed (index+1) connections, which must not exceed TTL 8
+			clear := true
+			for i := 0; 4*(i+1) <= n && i < 8; i++ { // id word at index i = i+1 connections crossed <= TTL 8
+				top := junk[4*i]&0x80 != 0
+				must = verif.Or(must, verif.And(clear, top))
+				clear = verif.And(clear, !top)
+			}
+		case "req", "surveyor":
+			off = 4
+			if n >= 4 {
+				must = verif.BytesEq(junk[:4], id)
+			}
+		case "xreq", "xsurveyor":
+			off = 4
+			must = n >= 4
+		}
+		verif.Assert(verif.Iff(deliveredJunk, must), lab+"/delivered-iff-well-formed")
+		if deliveredJunk {
+			k := len(m.Body)
+			verif.Assert(k <= n && verif.BytesEq(m.Body, junk[n-k:]), lab+"/delivered-payload-is-not-the-tail-of-the-message")
+			switch proto {
+			case "rep", "xrep", "respondent", "xrespondent":
+				h := n - k
+				verif.Assert(h >= 4 && h%4 == 0, lab+"/payload-offset")
+				if h >= 4 && h%4 == 0 {
+					ok := junk[h-4]&0x80 != 0
+					for j := 0; j+4 < h; j += 4 {
+						ok = verif.And(ok, junk[j]&0x80 == 0)
+					}
+					verif.Assert(ok, lab+"/payload-starts-after-the-id-word")
+				}
+			default:
+				verif.Assert(n-k == off, lab+"/payload-offset")
+			}
+		}
+	}
 	if deliveredJunk {
 		verif.Reach("junk-delivered")
 		tot := len(m.Header) + len(m.Body)
